@@ -188,7 +188,7 @@ impl St {
                 if !same {
                     if expect == MSend::Disc {
                         self.mismatch(
-                            "C13",
+                            if self.cfg.fut { "C13,C09,C15" } else { "C13,C09" },
                             "no-receiver-send",
                             format!("no-receiver-send:returns-{:?}", got),
                             format!(
